@@ -41,6 +41,7 @@ use async_generic::async_generic;
 use async_trait::async_trait;
 use c2pa::{
     assertions::{BoxHash, DataHash},
+    dynamic_assertion::{AsyncDynamicAssertion, DynamicAssertion, DynamicAssertionContent, PartialClaim},
     hash_stream_by_alg,
     http::{
         http::{Request, Response},
@@ -261,12 +262,92 @@ enum Fail {
     Garbage,
 }
 
+/// How the signer answers `send_timestamp_request` / `time_authority_url`.
+#[derive(Clone, Copy, PartialEq, Debug)]
+enum Ts {
+    /// trait defaults: no time stamp
+    None,
+    /// custom `send_timestamp_request` that fails
+    Err,
+    /// custom `send_timestamp_request` that returns bytes that are not a time-stamp response
+    Garbage,
+    /// `time_authority_url` (nothing listens there) + custom request headers and body, sent by the
+    /// trait's default `send_timestamp_request`
+    Url,
+}
+
+/// Optional signer capabilities (everything the `Signer` / `AsyncSigner` traits let a signer
+/// override beyond sign/alg/certs/reserve_size).
+#[derive(Clone, Copy, PartialEq, Debug)]
+struct Caps {
+    /// `ocsp_val` returns a pre-fetched OCSP response
+    ocsp: bool,
+    ts: Ts,
+    extra_reserve: usize,
+    direct_cose: bool,
+    dynamic: bool,
+}
+
+const NO_CAPS: Caps = Caps { ocsp: false, ts: Ts::None, extra_reserve: 0, direct_cose: false, dynamic: false };
+
 struct Core {
     inner: c2pa::BoxedSigner,
     fail: Fail,
+    caps: Caps,
+    /// which capability methods the SDK called (set)
+    calls: Mutex<std::collections::BTreeSet<&'static str>>,
 }
 
 impl Core {
+    fn called(&self, what: &'static str) {
+        self.calls.lock().unwrap().insert(what);
+    }
+
+    fn calls(&self) -> String {
+        self.calls.lock().unwrap().iter().copied().collect::<Vec<_>>().join("+")
+    }
+
+    fn reserve(&self) -> usize {
+        self.inner.reserve_size() + self.caps.extra_reserve + if self.caps.ocsp { ocsp_bytes().len() + 64 } else { 0 }
+    }
+
+    fn ocsp_val(&self) -> Option<Vec<u8>> {
+        self.called("ocsp_val");
+        self.caps.ocsp.then(ocsp_bytes)
+    }
+
+    fn time_authority_url(&self) -> Option<String> {
+        self.called("time_authority_url");
+        (self.caps.ts == Ts::Url).then(|| "http://127.0.0.1:9/tsa".to_string())
+    }
+
+    fn timestamp_request_headers(&self) -> Option<Vec<(String, String)>> {
+        self.called("timestamp_request_headers");
+        (self.caps.ts == Ts::Url).then(|| vec![("X-Verif".to_string(), "c40".to_string())])
+    }
+
+    /// `None` = use the trait's default
+    fn timestamp_request_body(&self, message: &[u8]) -> Option<Vec<u8>> {
+        self.called("timestamp_request_body");
+        (self.caps.ts == Ts::Url).then(|| message.iter().rev().copied().collect())
+    }
+
+    /// `None` = use the trait's default
+    fn send_timestamp_request(&self) -> Option<Option<c2pa::Result<Vec<u8>>>> {
+        self.called("send_timestamp_request");
+        match self.caps.ts {
+            Ts::Err => Some(Some(Err(Error::BadParam("tsa refuses".into())))),
+            Ts::Garbage => Some(Some(Ok(vec![0x30, 0x03, 0x02, 0x01, 0x00]))),
+            Ts::None => Some(None),
+            Ts::Url => None,
+        }
+    }
+
+    fn direct_cose(&self) -> bool {
+        self.called("direct_cose_handling");
+        self.caps.direct_cose
+    }
+
     fn sign(&self, data: &[u8]) -> c2pa::Result<Vec<u8>> {
         match self.fail {
             Fail::SignErr => Err(Error::BadParam("signer refuses".into())),
@@ -302,7 +383,105 @@ impl Signer for SyncS {
     }
 
     fn reserve_size(&self) -> usize {
-        self.0.inner.reserve_size()
+        self.0.reserve()
+    }
+
+    fn time_authority_url(&self) -> Option<String> {
+        self.0.time_authority_url()
+    }
+
+    fn timestamp_request_headers(&self) -> Option<Vec<(String, String)>> {
+        self.0.timestamp_request_headers()
+    }
+
+    fn timestamp_request_body(&self, message: &[u8]) -> c2pa::Result<Vec<u8>> {
+        match self.0.timestamp_request_body(message) {
+            Some(b) => Ok(b),
+            None => DefaultSigner(self).timestamp_request_body(message),
+        }
+    }
+
+    fn send_timestamp_request(&self, message: &[u8]) -> Option<c2pa::Result<Vec<u8>>> {
+        match self.0.send_timestamp_request() {
+            Some(r) => r,
+            None => DefaultSigner(self).send_timestamp_request(message),
+        }
+    }
+
+    fn ocsp_val(&self) -> Option<Vec<u8>> {
+        self.0.ocsp_val()
+    }
+
+    fn direct_cose_handling(&self) -> bool {
+        self.0.direct_cose()
+    }
+
+    fn dynamic_assertions(&self) -> Vec<Box<dyn DynamicAssertion>> {
+        self.0.called("dynamic_assertions");
+        if self.0.caps.dynamic {
+            vec![Box::new(DynA)]
+        } else {
+            vec![]
+        }
+    }
+}
+
+/// Gives access to the *trait's default* bodies of the time-stamp methods for a signer that
+/// overrides url / headers / body only.
+struct DefaultSigner<'a>(&'a SyncS);
+
+impl Signer for DefaultSigner<'_> {
+    fn sign(&self, data: &[u8]) -> c2pa::Result<Vec<u8>> {
+        self.0.sign(data)
+    }
+
+    fn alg(&self) -> SigningAlg {
+        self.0.alg()
+    }
+
+    fn certs(&self) -> c2pa::Result<Vec<Vec<u8>>> {
+        self.0.certs()
+    }
+
+    fn reserve_size(&self) -> usize {
+        self.0.reserve_size()
+    }
+
+    fn time_authority_url(&self) -> Option<String> {
+        self.0.time_authority_url()
+    }
+
+    fn timestamp_request_headers(&self) -> Option<Vec<(String, String)>> {
+        self.0.timestamp_request_headers()
+    }
+}
+
+struct DefaultAsyncSigner<'a>(&'a AsyncS);
+
+#[async_trait]
+impl AsyncSigner for DefaultAsyncSigner<'_> {
+    async fn sign(&self, data: Vec<u8>) -> c2pa::Result<Vec<u8>> {
+        self.0.sign(data).await
+    }
+
+    fn alg(&self) -> SigningAlg {
+        self.0.alg()
+    }
+
+    fn certs(&self) -> c2pa::Result<Vec<Vec<u8>>> {
+        self.0.certs()
+    }
+
+    fn reserve_size(&self) -> usize {
+        self.0.reserve_size()
+    }
+
+    fn time_authority_url(&self) -> Option<String> {
+        self.0.time_authority_url()
+    }
+
+    fn timestamp_request_headers(&self) -> Option<Vec<(String, String)>> {
+        self.0.timestamp_request_headers()
     }
 }
 
@@ -321,7 +500,46 @@ impl AsyncSigner for AsyncS {
     }
 
     fn reserve_size(&self) -> usize {
-        self.0.inner.reserve_size()
+        self.0.reserve()
+    }
+
+    fn time_authority_url(&self) -> Option<String> {
+        self.0.time_authority_url()
+    }
+
+    fn timestamp_request_headers(&self) -> Option<Vec<(String, String)>> {
+        self.0.timestamp_request_headers()
+    }
+
+    fn timestamp_request_body(&self, message: &[u8]) -> c2pa::Result<Vec<u8>> {
+        match self.0.timestamp_request_body(message) {
+            Some(b) => Ok(b),
+            None => DefaultAsyncSigner(self).timestamp_request_body(message),
+        }
+    }
+
+    async fn send_timestamp_request(&self, message: &[u8]) -> Option<c2pa::Result<Vec<u8>>> {
+        match self.0.send_timestamp_request() {
+            Some(r) => r,
+            None => DefaultAsyncSigner(self).send_timestamp_request(message).await,
+        }
+    }
+
+    async fn ocsp_val(&self) -> Option<Vec<u8>> {
+        self.0.ocsp_val()
+    }
+
+    fn direct_cose_handling(&self) -> bool {
+        self.0.direct_cose()
+    }
+
+    fn dynamic_assertions(&self) -> Vec<Box<dyn AsyncDynamicAssertion>> {
+        self.0.called("dynamic_assertions");
+        if self.0.caps.dynamic {
+            vec![Box::new(DynA)]
+        } else {
+            vec![]
+        }
     }
 }
 
@@ -339,12 +557,69 @@ fn core(alg: &str, fail: Fail) -> Arc<Core> {
     if alg == "ephemeral" {
         // self-made certificate chain: valid signature, never on a trust list
         let inner: c2pa::BoxedSigner = Box::new(c2pa::EphemeralSigner::new("c40.verif.test").expect("ephemeral signer"));
-        return Arc::new(Core { inner, fail });
+        return Arc::new(Core { inner, fail, caps: NO_CAPS, calls: Default::default() });
     }
     let (name, a) = ALGS.iter().find(|(n, _)| *n == alg).expect("alg");
     let cert = std::fs::read(fixtures().join(format!("certs/{name}.pub"))).expect("cert");
     let key = std::fs::read(fixtures().join(format!("certs/{name}.pem"))).expect("key");
-    Arc::new(Core { inner: c2pa::create_signer::from_keys(&cert, &key, *a, None).expect("signer"), fail })
+    Arc::new(Core { inner: c2pa::create_signer::from_keys(&cert, &key, *a, None).expect("signer"), fail, caps: NO_CAPS, calls: Default::default() })
+}
+
+fn core_with(alg: &str, caps: Caps) -> Arc<Core> {
+    let (name, a) = ALGS.iter().find(|(n, _)| *n == alg).expect("alg");
+    let cert = std::fs::read(fixtures().join(format!("certs/{name}.pub"))).expect("cert");
+    let key = std::fs::read(fixtures().join(format!("certs/{name}.pem"))).expect("key");
+    Arc::new(Core { inner: c2pa::create_signer::from_keys(&cert, &key, *a, None).expect("signer"), fail: Fail::None, caps, calls: Default::default() })
+}
+
+fn ocsp_bytes() -> Vec<u8> {
+    std::fs::read(fixtures().join("ocsp_good.data")).unwrap_or_else(|_| vec![0x30, 0x03, 0x0a, 0x01, 0x00])
+}
+
+/// The same dynamic assertion behind both traits.
+struct DynA;
+
+impl DynA {
+    fn body(label: &str, size: Option<usize>) -> c2pa::Result<DynamicAssertionContent> {
+        let mut v = serde_json::json!({"label": label, "pad": ""}).to_string();
+        if let Some(n) = size {
+            // fill to the reserved size exactly
+            let base = v.len();
+            if n >= base {
+                v = serde_json::json!({"label": label, "pad": "x".repeat(n - base)}).to_string();
+            }
+        }
+        Ok(DynamicAssertionContent::Json(v))
+    }
+}
+
+impl DynamicAssertion for DynA {
+    fn label(&self) -> String {
+        "org.verif.dynamic".to_string()
+    }
+
+    fn reserve_size(&self) -> c2pa::Result<usize> {
+        Ok(96)
+    }
+
+    fn content(&self, label: &str, size: Option<usize>, _claim: &PartialClaim) -> c2pa::Result<DynamicAssertionContent> {
+        DynA::body(label, size)
+    }
+}
+
+#[async_trait]
+impl AsyncDynamicAssertion for DynA {
+    fn label(&self) -> String {
+        "org.verif.dynamic".to_string()
+    }
+
+    fn reserve_size(&self) -> c2pa::Result<usize> {
+        Ok(96)
+    }
+
+    async fn content(&self, label: &str, size: Option<usize>, _claim: &PartialClaim) -> c2pa::Result<DynamicAssertionContent> {
+        DynA::body(label, size)
+    }
 }
 
 type Trace = Arc<Mutex<Vec<(String, u32, u32)>>>;
@@ -893,6 +1168,122 @@ fn settings_signer_both(cmp: &mut Cmp, fmt: &str, src: &[u8]) {
     cmp.both("settings-signer", fmt, &mut one);
 }
 
+/// Summary of the COSE_Sign1 in the `c2pa.signature` box of a manifest store: the labels of the
+/// unprotected header (sorted), and for the stapled values (`rVals`, `sigTst`, `sigTst2`) a digest
+/// of the content (`sigTst*` carry times: presence only). `pad` lengths are not compared.
+fn cose_headers(jumbf: &[u8]) -> String {
+    use coset::{CborSerializable, TaggedCborSerializable};
+    use sha2::Digest;
+    let label = b"c2pa.signature\0";
+    let Some(pos) = jumbf.windows(label.len()).position(|w| w == label) else { return "no-signature-box".into() };
+    let after = pos + label.len();
+    let Some(lb) = jumbf.get(after..after + 4) else { return "short".into() };
+    let lbox = u32::from_be_bytes(lb.try_into().unwrap()) as usize;
+    if jumbf.get(after + 4..after + 8) != Some(b"cbor") {
+        return "no-cbor-box".into();
+    }
+    let Some(cbor) = jumbf.get(after + 8..after + lbox) else { return "short".into() };
+    let s1 = match coset::CoseSign1::from_tagged_slice(cbor).or_else(|_| coset::CoseSign1::from_slice(cbor)) {
+        Ok(s) => s,
+        Err(_) => return format!("not-cose:{}", cbor.len().min(9999) / 1000),
+    };
+    let name = |l: &coset::Label| match l {
+        coset::Label::Int(i) => format!("#{i}"),
+        coset::Label::Text(t) => t.clone(),
+    };
+    let mut out: Vec<String> = s1
+        .unprotected
+        .rest
+        .iter()
+        .map(|(l, v)| {
+            let n = name(l);
+            if n == "rVals" {
+                let mut b = vec![];
+                let _ = coset::cbor::ser::into_writer(v, &mut b);
+                format!("rVals:{}", hex::encode(&sha2::Sha256::digest(&b)[..6]))
+            } else {
+                n
+            }
+        })
+        .collect();
+    out.sort();
+    let mut prot: Vec<String> = s1.protected.header.rest.iter().map(|(l, _)| name(l)).collect();
+    prot.sort();
+    format!("alg={:?};prot={};unprot={}", s1.protected.header.alg, prot.join(","), out.join(","))
+}
+
+/// Signing with signers that use the optional capabilities of the `Signer` / `AsyncSigner` traits
+/// (the same core behind both): the outcome compares the error class, the read-back report, the
+/// COSE headers of the produced signature (stapled OCSP response, time stamps) and the *set of
+/// capability methods the SDK called* — a forwarder that exists in one flavour only shows in all
+/// three.
+fn caps_sign_both(cmp: &mut Cmp, fmt: &str, src: &[u8], def: &str, alg: &str, caps: Caps, via_ctx: bool, cname: &str) {
+    // a canned OCSP response is about another certificate: do not verify after signing
+    let sextra = serde_json::json!({"verify": {"verify_after_sign": false}});
+    let mut one = |is_async: bool| -> Outc {
+        let core = core_with(alg, caps);
+        let tr: Trace = Default::default();
+        let res = guarded(std::panic::AssertUnwindSafe(|| -> c2pa::Result<(Vec<u8>, Vec<u8>)> {
+            let mut c = ctx(&sextra, &tr)?;
+            if via_ctx {
+                c = if is_async { c.with_async_signer(AsyncS(core.clone())) } else { c.with_signer(SyncS(core.clone())) };
+            }
+            let mut b = Builder::from_context(c).with_definition(def)?;
+            let mut input = Cursor::new(src.to_vec());
+            let mut out = Cursor::new(Vec::new());
+            let jumbf = match (via_ctx, is_async) {
+                (true, false) => b.save_to_stream(fmt, &mut input, &mut out)?,
+                (true, true) => block_on(b.save_to_stream_async(fmt, &mut input, &mut out))?,
+                (false, false) => b.sign(&SyncS(core.clone()), fmt, &mut input, &mut out)?,
+                (false, true) => block_on(b.sign_async(&AsyncS(core.clone()), fmt, &mut input, &mut out))?,
+            };
+            Ok((jumbf, out.into_inner()))
+        }));
+        let calls = core.calls();
+        let mut o = finish(res, |(jumbf, bytes)| format!("{}|cose[{}]", plain_read(fmt, &bytes, &sextra), cose_headers(&jumbf)), trace_phases(&tr));
+        o.report = format!("calls[{calls}]|{}", o.report);
+        o
+    };
+    if caps.ocsp && !caps.direct_cose {
+        // coverage evidence: the synchronous flavour really staples the response
+        if one(false).report.contains("rVals:") {
+            cmp.run.count("capability_ocsp_stapled_sync");
+        }
+    }
+    cmp.both("sign-capabilities", &format!("{fmt},{alg},{cname},{}", if via_ctx { "ctx" } else { "arg" }), &mut one);
+}
+
+fn capability_signers(cmp: &mut Cmp, sources: &[(&'static str, Vec<u8>)], thorough: bool) {
+    let variants: Vec<(&str, Caps)> = vec![
+        ("none", NO_CAPS),
+        ("ocsp", Caps { ocsp: true, ..NO_CAPS }),
+        ("ts-err", Caps { ts: Ts::Err, ..NO_CAPS }),
+        ("ts-garbage", Caps { ts: Ts::Garbage, ..NO_CAPS }),
+        ("ts-url", Caps { ts: Ts::Url, ..NO_CAPS }),
+        ("reserve+1", Caps { extra_reserve: 1, ..NO_CAPS }),
+        ("reserve+4096", Caps { extra_reserve: 4096, ..NO_CAPS }),
+        ("direct-cose", Caps { direct_cose: true, ..NO_CAPS }),
+        ("dynamic", Caps { dynamic: true, ..NO_CAPS }),
+        ("ocsp+dynamic+reserve", Caps { ocsp: true, dynamic: true, extra_reserve: 512, ..NO_CAPS }),
+        ("ocsp+ts-url", Caps { ocsp: true, ts: Ts::Url, ..NO_CAPS }),
+        ("ocsp+direct-cose", Caps { ocsp: true, direct_cose: true, ..NO_CAPS }),
+    ];
+    let fmts: &[&str] = if thorough { &["image/jpeg", "image/png", "video/mp4", "audio/wav"] } else { &["image/jpeg", "image/png"] };
+    let algs: &[&str] = if thorough { &["es256", "ps256", "ed25519", "es384"] } else { &["es256", "ed25519"] };
+    for (fmt, src) in sources.iter().filter(|(f, _)| fmts.contains(f)) {
+        let defs = definitions(fmt);
+        for (k, (cname, caps)) in variants.iter().enumerate() {
+            for via_ctx in [true, false] {
+                let alg = algs[(k + via_ctx as usize) % algs.len()];
+                caps_sign_both(cmp, fmt, src, &defs[0].1, alg, *caps, via_ctx, cname);
+            }
+        }
+    }
+    let seen_ocsp = cmp.run.nontrivial.iter().any(|k| k.starts_with("sign-capabilities ") && k.contains(",ocsp,") && k.ends_with(" ok"));
+    let stapled = cmp.run.dist.get("capability_ocsp_stapled_sync").copied().unwrap_or(0);
+    cmp.run.obligations.insert("capability-signers-stapled-ocsp-signed-ok".to_string(), seen_ocsp && stapled > 0);
+}
+
 // ---------------------------------------------------------------------------------------------
 // Part 3: hand-written pairs
 
@@ -1407,6 +1798,9 @@ pub fn run(run: &mut Run, rng: &mut Rng) {
             box_hashed_both(&mut cmp, "image/jpeg", alg, fail, sn, se);
         }
     }
+
+    // ---- signers with every optional capability, both flavours
+    capability_signers(&mut cmp, &sources, thorough);
 
     // ---- hand-written pairs (not macro expansions)
     hand_written_pairs(&mut cmp, rng, &signed, &svars, thorough);
